@@ -253,9 +253,10 @@ void vfps::FokkerPlanckMap::applyTo(PhaseSpace::Position &pos) const
         for (std::remove_const<decltype(_ip)>::type j=0; j<_ip; j++) {
             hi h = _hinfo[yi*_ip+j];
             charge += data_in[offs+h.index]*h.weight;
+            // charge arriving in row yi comes from row h.index: it moves by yi-index
             offset += data_in[offs+h.index]*h.weight
-                    * (static_cast<std::make_signed<meshindex_t>::type>(h.index)
-                      - yi);
+                    * (yi
+                      - static_cast<std::make_signed<meshindex_t>::type>(h.index));
         }
         offset /= charge;
         pos.y = std::max( static_cast<meshaxis_t>(1)
